@@ -25,6 +25,9 @@ pub enum NotifyMode {
     Dup,
     /// a stale height is announced instead
     Stale(u32),
+    /// the new tip, immediately followed by a stale height (two notifications
+    /// handed over back to back)
+    Burst(u32),
     /// a notification the plugin cannot decode (old shape, missing or
     /// out-of-range height): it must be survived
     Malformed(u8),
